@@ -417,7 +417,7 @@ func (c *t3ctx) stmts(ss []ast.Stmt, ind string) string {
 func t3Translate(f *ast.File) string {
 	type target struct {
 		goName, lean, params, doc string
-		args                    map[string]string
+		args                      map[string]string
 	}
 	targets := []target{
 		{"Up", "up", "", "Up()", map[string]string{}},
@@ -494,7 +494,6 @@ func t3Translate(f *ast.File) string {
 	}
 	return out.String()
 }
-
 
 // t3 writes Generated/T3.lean: the chain methods of builder.go translated over Model/BuilderPrims.
 func t3() {
